@@ -278,6 +278,25 @@ def run_case(case):
         return facts
 
     if case["kind"] == "random":
+        # a series of DIFFERENT molecules whose stochastic atom graphs have the same numbers of nodes and edges, each AtomGraph built from a
+        # temporary StochasticAtomGraph (freed at once): nothing keyed by the address or the size of an earlier graph may leak into the next
+        from ..ast import DistAst, MolAst, StochAst, Desc
+
+        series = ["CC(C)O", "CCCO", "CC(C)N", "CCCS", "CC(O)C", "NCCC", "CC(=O)O"]
+        rng.shuffle(series)
+        for smi in series[:5]:
+            try:
+                u = gen.build_token(rng, smi, [Desc("<"), Desc(">")], "ends")
+                ast_i = MolAst([StochAst(Desc(""), Desc(""), [u], [gen.single_atom_token("F", Desc("<")), gen.single_atom_token("Br", Desc(">"))], DistAst("schulz_zimm", (300.0, 200.0)))], arch="isomer-series")
+                text_i = ast_i.to_text()
+                M_i = gbigsmiles.Molecule(text_i)
+                ag_tmp = gbigsmiles.AtomGraph(M_i.gen_stochastic_atom_graph(), rng=R.SpyRNG(case["seed"] + 3))  # the stochastic graph object is a temporary
+                cm_i = model.compile_molecule(ast_i)
+                sag_i = M_i.gen_stochastic_atom_graph()
+                one(sag_i, cm_i, graphs.atom_graph(cm_i), None, "isomer-series-from-temporary-graph", text_i, reuse=ag_tmp)
+                cnt["isomer_series_generations"] += 1
+            except ValueError:
+                continue
         for k in range(case["mols"]):
             try:
                 ast = sz_molecule(rng, small=(k % 2 == 0), mean_units=[2, 3, 5, 7][k % 4])
